@@ -17,6 +17,7 @@ LOT_A = position.Cost(D('100.00'), 'USD', D1, None)
 LOT_B = position.Cost(D('120.00'), 'USD', D2, None)
 
 # (units, cost) patterns: reductions of lots, two lots of one commodity, several currencies, with and without cost
+LOT_ZERO = position.Cost(D('0.00'), 'USD', datetime.date(2019, 1, 7), None)
 PATTERNS = [
     [(A(D('10.00'), 'USD'), None), (A(D('2'), 'HOOL'), LOT_A), (A(D('-1'), 'HOOL'), LOT_A)],
     [(A(D('2'), 'HOOL'), LOT_A), (A(D('3'), 'HOOL'), LOT_B), (A(D('-2'), 'HOOL'), LOT_A)],
@@ -26,6 +27,7 @@ PATTERNS = [
     [(A(D('-5000.00'), 'USD'), None), (A(D('-5000.00'), 'USD'), None), (A(D('-5000.00'), 'USD'), None)],   # identical postings
     [(A(D('0.00'), 'USD'), None), (A(D('0'), 'HOOL'), LOT_A), (A(D('4.00'), 'EUR'), None)],                 # zero amounts
     [(A(D('0.00'), 'EUR'), None), (A(D('0.00'), 'EUR'), None), (A(D('0.00'), 'EUR'), None)],
+    [(A(D('5'), 'HOOL'), LOT_ZERO), (A(D('10.00'), 'USD'), None), (A(D('2'), 'HOOL'), LOT_A)],          # a lot held at zero cost
 ]
 PRICES = [data.Price(ledger.meta(90), datetime.date(2019, 1, 1), 'HOOL', A(D('110.00'), 'USD')),
           data.Price(ledger.meta(91), datetime.date(2019, 1, 1), 'EUR', A(D('1.25'), 'USD')),
@@ -81,7 +83,7 @@ def _q(conn, text):
 
 @cond('C12.sum', quick=240, thorough=900,
       bounds=f'3 postings from {len(PATTERNS)} amount / lot patterns (lot reductions, two lots of one commodity, three currencies, '
-             'cost and no cost, identical postings, zero amounts), in one or two transactions; symbolic: which postings the WHERE condition selects, which account each '
+             'cost and no cost, identical postings, zero amounts, a lot at zero cost), in one or two transactions; symbolic: which postings the WHERE condition selects, which account each '
              'posting is on: sum(position) equals the Beancount inventory sum of the selection; sums per account add up to the whole',
       symbolic='selection bits, account bits, transaction split', enumerated='amount pattern', params=PARAMS)
 def sum_positions(**kw):
